@@ -13,14 +13,14 @@ from gvmon.gen import files as F
 from gvmon.models import dialect as M
 from gvmon.monitors import contracts
 
-FORMS = ["path", "gz", "string", "list", "generator", "iterator_object", "DataIterator", "FeatureDB"]
-RULE = ("uniform-regime annotations of 0..25 lines in the 48 dialect points; each supplied in 8 input forms (path, .gz, "
-        "from_string, list of Features, one-shot generator, __next__ object, DataIterator, FeatureDB) x checklines in "
+FORMS = ["path", "gz", "string", "list", "generator", "iterator_object", "DataIterator", "FeatureDB", "symlink_gz", "symlink_plain"]
+RULE = ("uniform-regime annotations of 0..25 lines in the 48 dialect points; each supplied in 10 input forms (path, .gz, symlink named .gz to a gzip blob without suffix, symlink named .gff to a "
+        "plain file whose own name ends in .gz, from_string, list of Features, one-shot generator, __next__ object, DataIterator, FeatureDB) x checklines in "
         "{0,1,2,n-1,n,n+1,n+2}: yielded sequence == the file's lines, database content dump == reference import; a "
         "recording transform (modify / skip by falsy values) and inspect() with random look_for subsets and limits in "
         "{None,1,n-1,n,n+3}; non-trivial = n >= 3; distinct by (annotation text, form, checklines class)")
 REQUIRED = ["sparse-regime form comparisons", "form sequences compared", "databases compared", "one-shot pulls logged", "transform calls recorded",
-            "inspect results compared"] + ["form=" + f for f in FORMS]
+            "inspect results compared", "in-place edits of features with identical attribute columns compared"] + ["form=" + f for f in FORMS]
 ASSUMPTIONS = [
     "annotations are written in the uniform regime, so every window infers the same dialect and all forms are comparable",
     "for GTF annotations the FeatureDB form is a database built without inference (its content is then the plain annotation)",
@@ -59,6 +59,9 @@ def make_source(ctx, form, paths, text, ck, pulls, transform=None):
         return paths["plain"], {}
     if form == "gz":
         return paths["gz"], {}
+    if form in ("symlink_gz", "symlink_plain"):
+        # the name the caller gives decides how the file is read, not the name of whatever a symlink resolves to
+        return paths[form], {}
     if form == "string":
         return text, {"from_string": True}
     if form == "DataIterator":
@@ -100,6 +103,8 @@ def execute(ctx, case):
             transform(ctx, case)
         elif kind == "inspect":
             inspect_case(ctx, case)
+        elif kind == "aliasing":
+            aliasing(ctx, case)
     finally:
         for v in contracts.drain():
             ctx.violation(case, v)
@@ -129,12 +134,24 @@ def prepare_files(ctx, case):
     else:
         with gzip.open(paths["gz"], "wb") as fh:
             fh.write(raw)
+    # content-addressed stores / workflow staging: the caller's name is a symlink to a blob named otherwise
+    blob_gz, blob_plain = ctx.tmp(".blob.dat"), ctx.tmp(".stored.gz")
+    import shutil
+    shutil.copyfile(paths["gz"], blob_gz)
+    shutil.copyfile(paths["plain"], blob_plain)
+    paths["blob_gz"], paths["blob_plain"] = blob_gz, blob_plain
+    paths["symlink_gz"], paths["symlink_plain"] = ctx.tmp(".link.gff.gz"), ctx.tmp(".link.gff")
+    for k in ("symlink_gz", "symlink_plain"):
+        if os.path.lexists(paths[k]):
+            os.unlink(paths[k])
+    os.symlink(blob_gz, paths["symlink_gz"])
+    os.symlink(blob_plain, paths["symlink_plain"])
     return text, lines, paths
 
 
 def cleanup(paths):
     for p in paths.values():
-        if isinstance(p, str) and os.path.exists(p):
+        if isinstance(p, str) and os.path.lexists(p):
             os.unlink(p)
 
 
@@ -319,6 +336,48 @@ def transform(ctx, case):
         cleanup(paths)
 
 
+def aliasing(ctx, case):
+    """Several lines carry a byte-identical attributes column (the exon and CDS lines of one transcript do).  Each yielded
+    feature is an object of its own: a transform (or a consumer) that edits one feature's value list in place edits that
+    feature only, in every input form."""
+    from gffutils.iterators import DataIterator
+
+    D = case["D"]
+    text, lines, paths = prepare_files(ctx, case)
+    key = case["key"]
+    expected = [list(dict((k, v) for k, v in it["rec"]["attrs"])[key]) + ["edited"] for it in case["items"] if it["t"] == "feat"]
+    try:
+        for form in case["forms"]:
+            for how in ("transform", "consumer"):
+                pulls = []
+
+                def tr(f):
+                    f.attributes[key].append("edited")
+                    return f
+                try:
+                    if how == "transform":
+                        data, kw = make_source(ctx, form, paths, text, case["checklines"], pulls, transform=tr)
+                        out = [list(f.attributes[key]) for f in DataIterator(data, checklines=case["checklines"], transform=tr, **kw)]
+                    else:
+                        data, kw = make_source(ctx, form, paths, text, case["checklines"], pulls)
+                        out = []
+                        held = []
+                        for f in DataIterator(data, checklines=case["checklines"], **kw):
+                            f.attributes[key].append("edited")
+                            held.append(f)
+                        out = [list(f.attributes[key]) for f in held]
+                except Exception as ex:
+                    ctx.violation(case, {"why": "iteration raised %r" % (ex,), "form": form, "how": how, "text": text})
+                    return
+                ctx.mon("in-place edits of features with identical attribute columns compared")
+                if out != expected:
+                    ctx.violation(case, {"why": "an in-place edit of one yielded feature's values shows on other features (or not once)",
+                                         "form": form, "how": how, "got": out, "expected": expected, "text": text})
+                    return
+    finally:
+        cleanup(paths)
+
+
 def inspect_case(ctx, case):
     import gffutils
     from gffutils import inspect as I
@@ -431,6 +490,28 @@ def run(ctx):
         execute(ctx, case)
         ctx.case(("transform", F.text_of(items, D), plan, case["checklines"], case["forms"]), n >= 3,
                  sample={"plan": plan, "forms": case["forms"]} if rng.random() < 0.05 else None, cls="transform")
+    import copy
+    for _ in range(ctx.budget(100, 5000)):
+        D, items = annotation(rng)
+        feats = [it for it in items if it["t"] == "feat"]
+        if len(feats) < 2:
+            continue
+        a0 = feats[0]["rec"]["attrs"]
+        keyed = [k for k, v in a0 if v]
+        if not keyed:
+            continue
+        key = keyed[-1]
+        for j, it in enumerate(feats[1:]):
+            it["rec"]["attrs"] = copy.deepcopy(a0)
+            if rng.random() < 0.3:
+                # not identical after all: the value under the key differs
+                for kv in it["rec"]["attrs"]:
+                    if kv[0] == key:
+                        kv[1] = [kv[1][0] + "x%d" % j] + kv[1][1:]
+        case = {"kind": "aliasing", "D": D, "items": items, "key": key, "checklines": rng.choice([0, 1, 2, 10, len(feats) + 2]),
+                "forms": rng.sample([f for f in FORMS if f != "FeatureDB"], 4)}
+        execute(ctx, case)
+        ctx.case(("aliasing", F.text_of(items, D), key, case["checklines"], case["forms"]), len(feats) >= 3, cls="aliasing")
     opts = ["featuretype", "chrom", "attribute_keys", "feature_count", "source", "strand", "start", "end", "score", "frame", "seqid"]
     for _ in range(ctx.budget(1200, 40000)):
         D, items = annotation(rng)
@@ -449,7 +530,7 @@ def run(ctx):
 
 MANIFEST = {
     "technique": "pull-log monitor on one-shot sources + cross-form comparison against the annotation's own lines and a reference import; recording transform; Counter model of inspect",
-    "text": "The same generated annotation is handed to the real DataIterator and create_db in eight forms for checklines "
+    "text": "The same generated annotation is handed to the real DataIterator and create_db in ten forms (two of them symlinks whose target is named differently from the link) for checklines "
             "values around the file length; the yielded sequence is compared with the file's own lines and each database with "
             "a reference import through an independent sqlite reader; one-shot sources log every pull so that a dropped, "
             "duplicated or reordered item is seen directly; a recording transform proves exactly-once application and "
